@@ -3,7 +3,7 @@
     (ParserSound.v) and their converses (ParserComplete.v). *)
 From Coq Require Import List NArith ZArith Bool Lia.
 From ApiFu Require Import Base.Sexp Syn.Ast Syn.ParserModel Syn.Printer Syn.ParserBase Syn.ParserSound
-     Syn.ParserComplete.
+     Syn.ParserComplete Syn.ParserFuel.
 Import ListNotations.
 
 (** every scanner error of the input, in scan order: what [p.errors] holds when the whole input
@@ -245,6 +245,32 @@ Section Top.
     eapply subseq_NoDup; [|exact Hn]. eapply subseq_trans; [apply positions_document_subseq|exact L].
   Qed.
 
+  (** the stated fuel ([S (length ts)]) suffices on every input *)
+  Theorem parse_total ts : ParseDocument ts <> OOF.
+  Proof. apply document_fuel_sufficient. Qed.
+
+  (** the parser decides the grammar: exactly the layouts of well-formed trees (of derivation
+      height within the limit) without lexical errors are accepted *)
+  Theorem parse_accepts_exactly ts d :
+    ParseDocument ts = Out (Some d) [] <->
+    layout_of (tokens_document d) (map st_tok ts) = true /\ wf_document d = true /\
+    (depth_document d <= max_recursion)%Z /\ scanner_errors eof_errs ts = [].
+  Proof.
+    split; [apply parse_sound|]. intros (L & W & D & E). apply parse_roundtrip; assumption.
+  Qed.
+
+  (** ... and everything else is rejected with at least one error *)
+  Theorem parse_rejects_rest ts :
+    (forall d, ~ (layout_of (tokens_document d) (map st_tok ts) = true /\ wf_document d = true /\
+                  (depth_document d <= max_recursion)%Z)) ->
+    exists es, ParseDocument ts = Out None es /\ es <> [].
+  Proof.
+    intro Hn. destruct (ParseDocument ts) as [[d|] es|] eqn:E.
+    - exfalso. destruct (parse_document_tree _ _ _ E) as (L & W & D & _). apply (Hn d). auto.
+    - exists es. split; [reflexivity|]. intro He. subst es. exact (parse_reject_has_error _ E).
+    - exfalso. exact (parse_total _ E).
+  Qed.
+
   (** ** values *)
 
   Lemma parse_value_top_sat ts fuel s :
@@ -294,6 +320,9 @@ Section Top.
     destruct (parse_value_top eof_pos eof_errs (fuel_for ts) (init eof_errs ts)) as [a s'|es'|]; try discriminate.
     inversion H; subst es'. apply failed_located. exact Hs.
   Qed.
+
+  Theorem parse_value_total ts : ParseValue ts <> OOF.
+  Proof. apply value_fuel_sufficient. Qed.
 End Top.
 
 (** ** the two repaired defects, kept as witnesses *)
@@ -325,3 +354,41 @@ Lemma value_truncated_before_fix :
   exists v, ParseValue_before_fix p0 [] [st0 KInt [49%N]; st0 KInt [50%N]] = Out (Some v) [] /\
             layout_of (tokens_value v) (map st_tok [st0 KInt [49%N]; st0 KInt [50%N]]) = false.
 Proof. eexists. vm_compute. split; reflexivity. Qed.
+
+(** ** after the repair: flat selection sets of ANY width are accepted (their derivation height
+    does not depend on the width) *)
+Lemma wide_depth n : depth_document (wide_doc (S n)) = 8%Z.
+Proof.
+  unfold wide_doc, depth_document. cbn [map maxl fold_right depth_definition]. rewrite depth_selset_eq.
+  assert (H : maxl (map depth_selection (repeat (SField None (mkid b_a p0) [] [] None) (S n))) = 3%Z).
+  { induction n as [|n IH]; [reflexivity|]. cbn [repeat map maxl fold_right] in *. unfold maxl in IH. rewrite IH. reflexivity. }
+  rewrite H. reflexivity.
+Qed.
+
+Lemma wide_layout n :
+  layout_of (tokens_document (wide_doc n)) (map st_tok (wide_tokens n)) = true.
+Proof.
+  unfold wide_doc, wide_tokens, tokens_document. cbn [flat_map tokens_definition tokens_vardefs tokens_directives app].
+  rewrite app_nil_r, tokens_selset_eq. cbn [map]. rewrite map_app. cbn [map].
+  apply layout_of_cons_intro; [reflexivity|]. apply layout_of_app; [|reflexivity].
+  induction n as [|n IH]; [reflexivity|]. cbn [repeat flat_map map tokens_selection tokens_arguments tokens_directives app].
+  apply layout_of_cons_intro; [reflexivity|exact IH].
+Qed.
+
+Lemma wide_wf n : wf_document (wide_doc (S n)) = true.
+Proof.
+  unfold wide_doc, wf_document. cbn [nonempty forallb wf_definition andb]. rewrite wf_selset_eq. rewrite andb_true_r.
+  cbn [repeat nonempty andb]. induction n as [|n IH]; [reflexivity|]. cbn [repeat forallb] in *. exact IH.
+Qed.
+
+Theorem wide_accepted_after_fix n :
+  ParserModel.ParseDocument p0 [] false (wide_tokens (S n)) = Out (Some (wide_doc (S n))) [].
+Proof.
+  apply parse_roundtrip.
+  - apply wide_layout.
+  - apply wide_wf.
+  - rewrite wide_depth. unfold max_recursion. lia.
+  - unfold scanner_errors, wide_tokens. rewrite app_nil_r. cbn [flat_map st0 st_errs app].
+    rewrite flat_map_app. cbn [flat_map st_errs st0 app]. rewrite app_nil_r.
+    induction n as [|n IH]; [reflexivity|]. cbn [repeat flat_map st_errs st0 app] in *. exact IH.
+Qed.
